@@ -226,8 +226,12 @@ def run_case(case, ctx, st):
         else:
             if dist == "mmd":
                 p2["gemini"] = {"cls": "MMDGEMINI", "ovo": ovo, "kernel": "precomputed", "params": None}
+                if isinstance(params.get("gemini"), dict) and "epsilon" in params["gemini"]:
+                    p2["gemini"]["epsilon"] = params["gemini"]["epsilon"]
             else:
                 p2["gemini"] = {"cls": "WassersteinGEMINI", "ovo": ovo, "metric": "precomputed", "params": None}
+                if isinstance(params.get("gemini"), dict) and "epsilon" in params["gemini"]:
+                    p2["gemini"]["epsilon"] = params["gemini"]["epsilon"]
         if p2.get("dynamic"):
             p2["dynamic"] = False
             named = False     # dynamic mode recomputes the affinity on selected features: not comparable
@@ -294,6 +298,41 @@ def run_case(case, ctx, st):
                 ctx.violation("missing-matrix", f"missing-precomputed-matrix-accepted/{name}", observed="fit returned", expected="error")
         except Exception:
             ctx.count("missing_precomputed_refused")
+    # the same object (and a clone of it) on data of another width: "the kernel named by its hyperparameters evaluated with
+    # the given parameters" - what a parameter dictionary leaves out takes scikit-learn's default for THIS data
+    if name != "Kauri" and pre is None and not use_path and not params.get("groups") and params.get("feature_mask") is None \
+            and ((spec is not None and not spec["callable"]) or (name == "KernelRIM" and not isinstance(params.get("base_kernel"), dict))) \
+            and (i % 2 == 1 or name == "KernelRIM"):
+        from sklearn.base import clone
+        d2 = [w for w in (1, 2, 3, 4, 5) if w != d][int(rng.integers(0, 4))]
+        if name == "Douglas":
+            d2 = [w for w in (1, 2, 3) if w != d][int(rng.integers(0, 2))]
+        X2 = gen.make_data(rng, n, d2, "nonneg" if nonneg else "blobs")
+        want2 = gen.expected_affinity(spec, X2, None)
+        for who, obj in (("same-object", est), ("clone", None)):
+            try:
+                with warnings.catch_warnings():
+                    warnings.simplefilter("ignore")
+                    if obj is None:
+                        obj = clone(est)
+                    st.reset(obj)
+                    obj.fit(X2)
+            except Exception as e:
+                ctx.count("other_width_fit_raised:" + type(e).__name__)
+                continue
+            ctx.count("other_width_refits")
+            ok2 = True
+            if name == "KernelRIM":
+                from sklearn.metrics import pairwise_kernels
+                bk, bp = params.get("base_kernel", "linear"), params.get("base_kernel_params") or {}
+                for (Xq, out) in st.krim[:2]:
+                    ok2 = ok2 and same(out, pairwise_kernels(Xq, X2, metric=bk, **bp))
+            elif not isinstance(st.train_aff, str):
+                ok2 = same(st.train_aff, want2)
+            if not ok2:
+                ctx.violation("other-width-affinity", f"affinity-after-refit-on-other-width-not-as-described/{name}",
+                              observed={"who": who, "params": params, "d_first": d, "d_second": d2}, expected="the described affinity for the new data")
+                break
     st.reset(None)
     ctx.distinct(name, str(params))
     ctx.sample({"estimator": name, "params": params, "objective": [dist, None if dist is None else ovo], "path": use_path})
